@@ -431,7 +431,6 @@ void vfps::ProgramOptions::save(std::string fname)
         || it->first == "SyncFreq"
         || it->first == "steps"
         || it->first == "RFVoltage"
-        || it->first == "run_anyway"
         || it->first == "SaveSourceMap"
         ){
             continue;
